@@ -595,7 +595,7 @@ def no_stop_on_build(src):
 
 
 ARRAY = ArrayFamily('array', 'm', 'abfold', 'afold', 'aval', 'abret').make().make_canonical()
-SEQUENCE = SequenceFamily('sequence', 'sl', 'qbfold', 'qfold', 'qval', 'qbret').make()
+SEQUENCE = SequenceFamily('sequence', 'sl', 'qbfold', 'qfold', 'qval', 'qbret').make().make_canonical()
 STRUCT = StructFamily().make()
 struct_persistence(STRUCT)
 ghost.POST_HINTS['Array'] = canonical_post_hints(ARRAY)
@@ -634,7 +634,8 @@ def struct_post_hints(ob):
 
 def install(src):
     nostop = no_stop_on_build(src)
-    ghost.POST_HINTS['Sequence'] = lambda ob: SEQUENCE.post_hints(ob) + nostop(ob)
+    seq_canon = canonical_post_hints(SEQUENCE)
+    ghost.POST_HINTS['Sequence'] = lambda ob: (seq_canon(ob) if getattr(ob, 'canonical_traits', False) else SEQUENCE.post_hints(ob)) + nostop(ob)
     ghost.POST_HINTS['Struct'] = lambda ob: struct_post_hints(ob) + nostop(ob)
     from . import lazylemmas as _lzl
     ghost.POST_HINTS['LazyStruct'] = _lzl.struct_post_hints(src)
